@@ -537,6 +537,7 @@ func TestC36(t *testing.T) {
 			m.daoOwner = n.App.VerifGovKeeper().GetDAOOwner(ctx)
 			m.daoAddr = n.App.VerifAccountKeeper().GetModuleAddress(govTypes.DAOAccountName)
 			m.feeAddr = n.App.VerifAccountKeeper().GetModuleAddress(authTypes.FeeCollectorName)
+			w.labels = map[string]string{hex.EncodeToString(m.daoAddr): "DAO-account", hex.EncodeToString(m.feeAddr): "fee-collector"}
 			// harness self-check: the generated genesis owners are what the state holds
 			for _, k := range chain.ACLKeys {
 				want := w.dao.addr
